@@ -13,7 +13,6 @@ import (
 	"io"
 	"math"
 	"os"
-	"time"
 
 	"github.com/spf13/afero"
 
@@ -56,7 +55,8 @@ type ioScenario struct {
 	Writes []wrScript `json:"writes,omitempty"`
 	RF     bool       `json:"reader_from,omitempty"`
 	WT     bool       `json:"writer_to,omitempty"`
-	Pre    string     `json:"pre,omitempty"` // "", cancelled, deadline
+	Pre    string     `json:"pre,omitempty"` // context done before the call: "" (no) or the way it ended (ctxflavours.go; cancelled = cancel)
+	Mid    string     `json:"mid,omitempty"` // the way the context ends when a script says so ("" = cancel)
 	Apply  bool       `json:"apply_limits,omitempty"`
 }
 
@@ -69,7 +69,7 @@ type source struct {
 	script []rdScript
 	i      int
 	ctx    context.Context
-	cancel context.CancelFunc
+	cancel func()
 	log    *[]evLog
 }
 
@@ -141,7 +141,7 @@ type dest struct {
 	script []wrScript
 	i      int
 	ctx    context.Context
-	cancel context.CancelFunc
+	cancel func()
 	log    *[]evLog
 }
 
@@ -207,15 +207,17 @@ type ioObs struct {
 
 func runIO(sc ioScenario) (o ioObs, data []byte) {
 	data = pattern(sc.SrcLen, sc.Salt)
-	ctx, cancel := context.WithCancel(context.Background())
-	defer cancel()
-	switch sc.Pre {
-	case "cancelled":
-		cancel()
-	case "deadline":
-		var c2 context.CancelFunc
-		ctx, c2 = context.WithDeadline(context.Background(), time.Now().Add(-time.Second))
-		defer c2()
+	var ctx context.Context
+	var cancel func()
+	if sc.Pre != "" {
+		c, end, release := newCtx(preFlavour(sc.Pre), true)
+		defer release()
+		end()
+		ctx, cancel = c, end
+	} else {
+		c, end, release := newCtx(sc.Mid, false)
+		defer release()
+		ctx, cancel = c, end
 	}
 	var log []evLog
 	src := &source{data: data, script: sc.Reads, ctx: ctx, cancel: cancel, log: &log}
@@ -284,6 +286,28 @@ func runIO(sc ioScenario) (o ioObs, data []byte) {
 	return
 }
 
+func preFlavour(p string) string {
+	if p == "cancelled" {
+		return "cancel"
+	}
+	return p
+}
+
+// no failure is injected by the scripts (the context may end)
+func faultFree(sc ioScenario) bool {
+	for _, r := range sc.Reads {
+		if r.Err != 0 {
+			return false
+		}
+	}
+	for _, w := range sc.Writes {
+		if w.Err || w.N >= 0 {
+			return false
+		}
+	}
+	return true
+}
+
 func honest(sc ioScenario) bool {
 	for _, r := range sc.Reads {
 		if r.Err != 0 || r.Cancel {
@@ -336,8 +360,8 @@ func checkIO(r *h.Run, sc ioScenario, o ioObs, data []byte) {
 		r.Fail("count-differs-from-transfer:"+op, fmt.Sprintf("%s returned count %d but the destination holds %d bytes", op, o.Count, len(o.Out)), sc)
 	}
 	if sc.Pre != "" {
-		if !isCancelKind(o.Kind) {
-			r.Fail("precancelled-wrong-kind:"+op, fmt.Sprintf("%s with a context already done returned kind %s (%s)", op, o.Kind, o.Err), sc)
+		if want := wantKind(preFlavour(sc.Pre)); o.Kind != want {
+			r.Fail("precancelled-wrong-kind:"+op, fmt.Sprintf("%s with a context already done (%s) returned kind %s (%s), expected %s", op, sc.Pre, o.Kind, o.Err, want), sc)
 		}
 		if len(o.Log) > 0 || len(o.Out) > 0 || o.Count != 0 {
 			r.Fail("precancelled-touches-streams:"+op, fmt.Sprintf("%s with a context already done issued %d stream operations, handed out %d bytes", op, len(o.Log), len(o.Out)), sc)
@@ -382,6 +406,10 @@ func checkIO(r *h.Run, sc ioScenario, o ioObs, data []byte) {
 	}
 	if ended && !isCancelKind(o.Kind) && o.Kind != "nil" && o.Kind != "eof" && o.Kind != "empty" && o.Kind != "other" {
 		r.Fail("cancel-during-wrong-kind:"+op, fmt.Sprintf("%s: the context ended while it ran: kind %s", op, o.Kind), sc)
+	}
+	if want := wantKind(sc.Mid); ended && (isCancelKind(o.Kind) && o.Kind != want || faultFree(sc) && o.Kind == "other") {
+		// whatever the cause attached to the context: cancellation -> cancelled, deadline -> timeout; and nothing else can have gone wrong
+		r.Fail("cancel-during-wrong-kind:"+op, fmt.Sprintf("%s: the context ended (%s) while it ran: kind %s (%s), expected %s", op, sc.Mid, o.Kind, o.Err, want), sc)
 	}
 	// a source failing with an unexpected end of stream is reported with the EOF kind (unless CopyN already had its n bytes)
 	if len(o.Log) > 0 && !ended {
@@ -461,11 +489,8 @@ func coqCase(sc ioScenario, o ioObs, data []byte) string {
 		return ""
 	}
 	pre := "None"
-	switch sc.Pre {
-	case "cancelled":
-		pre = "(Some KCancelled)"
-	case "deadline":
-		pre = "(Some KTimeout)"
+	if sc.Pre != "" {
+		pre = "(Some " + coqKind(wantKind(preFlavour(sc.Pre))) + ")"
 	}
 	var rs, ws, lg []string
 	for _, e := range o.Log {
@@ -477,8 +502,8 @@ func coqCase(sc ioScenario, o ioObs, data []byte) string {
 			lg = append(lg, fmt.Sprintf("(EvWrite %s %d %d)", h.Bool(e.CtxDone), e.N, e.Accepted))
 		}
 	}
-	return fmt.Sprintf("(mkCase %s %s %s %s %s %s %s %s %s %s)", op, h.Bool(sc.RF), pre, h.Bytes(data), h.List(rs), h.List(ws),
-		coqKind(o.Kind), h.Z(o.Count), h.Bytes(o.Out), h.List(lg))
+	return fmt.Sprintf("(mkCase %s %s %s %s %s %s %s %s %s %s %s)", op, h.Bool(sc.RF), pre, h.Bytes(data), h.List(rs), h.List(ws),
+		coqKind(o.Kind), h.Z(o.Count), h.Bytes(o.Out), h.List(lg), coqKind(wantKind(sc.Mid)))
 }
 
 func doIO(r *h.Run, sc ioScenario, emit bool) {
@@ -582,7 +607,11 @@ func ioDeterministic(r *h.Run) {
 		}
 		doIO(r, ioScenario{Op: "writestring", SrcLen: L, Salt: 1}, false)
 		// context done before the call
-		for _, pre := range []string{"cancelled", "deadline"} {
+		pres := []string{"cancelled", "deadline"}
+		if L == 7 || L == 512 {
+			pres = append(allFlavours(), "cancelled")
+		}
+		for _, pre := range pres {
 			doIO(r, ioScenario{Op: "readatmost", Max: -1, Cap: -1, SrcLen: L, Pre: pre}, true)
 			doIO(r, ioScenario{Op: "readatmost", Max: 3, Cap: 8, SrcLen: L, Pre: pre}, true)
 			doIO(r, ioScenario{Op: "readall", SrcLen: L, Pre: pre}, true)
@@ -595,6 +624,7 @@ func ioDeterministic(r *h.Run) {
 			doIO(r, ioScenario{Op: "writestring", SrcLen: L, Pre: pre}, false)
 		}
 	}
+	midRot := 0
 	// the context ends during the j-th Read / Write; failures at byte k; short writes — every position of a 5-chunk stream
 	for j := 0; j < 6; j++ {
 		for _, op := range []string{"readatmost", "copydata", "copyn"} {
@@ -606,15 +636,18 @@ func ioDeterministic(r *h.Run) {
 				for _, mut := range []rdScript{{Cancel: true}, {Err: 1}, {Err: 2}, {Err: 3}, {Err: 3, Cancel: true}} {
 					s := base()
 					s[j].Cancel, s[j].Err = mut.Cancel, mut.Err
-					doIO(r, ioScenario{Op: op, Max: -1, Cap: -1, N: 15, SrcLen: 15, Salt: j, Reads: s, RF: rf}, true)
-					doIO(r, ioScenario{Op: op, Max: 9, Cap: 4, N: 9, SrcLen: 15, Salt: j, Reads: s, RF: rf}, true)
-					doIO(r, ioScenario{Op: op, Max: 20, Cap: 0, N: 20, SrcLen: 15, Salt: j, Reads: s, RF: rf}, j%2 == 0)
+					midRot++
+					mid := func(i int) string { return instantFlavours[(midRot+i)%len(instantFlavours)] }
+					doIO(r, ioScenario{Op: op, Max: -1, Cap: -1, N: 15, SrcLen: 15, Salt: j, Reads: s, RF: rf, Mid: mid(0)}, true)
+					doIO(r, ioScenario{Op: op, Max: 9, Cap: 4, N: 9, SrcLen: 15, Salt: j, Reads: s, RF: rf, Mid: mid(3)}, true)
+					doIO(r, ioScenario{Op: op, Max: 20, Cap: 0, N: 20, SrcLen: 15, Salt: j, Reads: s, RF: rf, Mid: mid(6)}, j%2 == 0)
 				}
 				if op != "readatmost" && !rf && j < 5 {
 					for _, w := range []wrScript{{N: -1, Cancel: true}, {N: 1}, {N: 0}, {N: -1, Err: true}, {N: 1, Err: true}} {
 						ws := []wrScript{{N: -1}, {N: -1}, {N: -1}, {N: -1}, {N: -1}}
 						ws[j] = w
-						doIO(r, ioScenario{Op: op, N: 12, SrcLen: 15, Salt: j, Reads: base(), Writes: ws}, true)
+						midRot++
+						doIO(r, ioScenario{Op: op, N: 12, SrcLen: 15, Salt: j, Reads: base(), Writes: ws, Mid: instantFlavours[midRot%len(instantFlavours)]}, true)
 					}
 				}
 			}
@@ -659,6 +692,7 @@ func ioRandom(r *h.Run, n int, big bool) {
 		}
 		sc.RF = r.Rng.Intn(3) == 0
 		sc.WT = r.Rng.Intn(4) == 0
+		sc.Mid = instantFlavours[r.Rng.Intn(len(instantFlavours))]
 		sc.Reads = chunking(r, L, 2+r.Rng.Intn(2))
 		if big {
 			sc.Reads = chunking(r, L, r.Rng.Intn(4))
